@@ -175,6 +175,17 @@ NoLawViolated == viol = {}
 \* distinct indices of a type denote distinct literals; the declarations are printed once for the harness
 ASSUME \A t \in 1..NT : Count(Ty(t)) > 64 \/ \A i, k \in 0..(Count(Ty(t)) - 1) : i # k => Nth(Ty(t), i) # Nth(Ty(t), k)
 ASSUME PrintT(<<"DECLS", ToJson(Decls)>>)
+\* every literal of the escape universe is a well-formed Lua literal, and no two are written alike
+ASSUME \A ty \in {EscStr, EscS, EscH, EscQ} : \A i \in 0..(Count(ty) - 1) :
+          /\ Denote(Nth(ty, i).src).ok
+          /\ \A k \in 0..(i - 1) : Nth(ty, k).src # Nth(ty, i).src
+\* what a few literals denote (the rules of Denote, spot-checked)
+ASSUME /\ Denote("\\65").v = <<65>> /\ Denote("\\6").v \o Denote("5").v = <<6, 53>>
+       /\ Denote("a\\z  b").v = <<97, 98>> /\ Denote("a\\z").v \o Denote("  b").v = <<97, 32, 32, 98>>
+       /\ Denote("\\0655").v = <<65, 53>> /\ ~Denote("\\655").ok /\ Denote("\\x41\\u{41}\\u{e9}").v = <<65, 65, 195, 169>>
+       /\ Denote("\\\\n").v = <<92, 110>> /\ Denote("\\n").v = <<10>> /\ ~Denote("\\").ok /\ ~Denote("\\x4").ok
+\* the function globals are bound to what their initialisers evaluate to
+ASSUME \A i \in 1..3 : LET r == EvalE(Globals[i].e, 0, NewState(1)) IN r.sig = "ok" /\ r.v = Globals[i].v
 \* the alias map is strictly increasing in the spec value (the replayer checks that it is in the real values, too)
 ASSUME \A i \in 1..(Len(Alias) - 1) : Alias[i].spec < Alias[i + 1].spec
 ASSUME PrintT(<<"ALIAS", ToJson(Alias)>>)
